@@ -60,6 +60,8 @@ type PathState struct {
 	nquick   int
 	scanned  map[*Term]bool
 	nscanned int
+	ors      []*Term
+	inOrs    bool
 }
 
 type WorkItem struct {
@@ -162,6 +164,7 @@ func (m *Machine) rollback() {
 			u.mp.idx = u.mold.idx
 			u.mp.entries = u.mold.entries
 			u.mp.n = u.mold.n
+			u.mp.nlazy = u.mold.nlazy
 		case u.ch != nil:
 			*u.ch = u.chOld
 		case u.slot == -1:
@@ -190,6 +193,15 @@ func (m *Machine) syncSolver(extra []*Term) {
 		m.solver.BeginPath()
 		p.solverOn = true
 		p.sent = 0
+	}
+	// a symbol name reused with another width (another harness ran on this solver): reset
+	for _, nd := range p.nondets {
+		if w, ok := m.solver.baseSyms[nd.T.name]; ok && w != nd.T.w {
+			m.solver.Reset()
+			m.solver.BeginPath()
+			p.sent = 0
+			break
+		}
 	}
 	// unicode applications on plain symbols get their full definition at base level
 	var need []*Term
@@ -408,6 +420,22 @@ func (m *Machine) choose(n int, why string) int {
 	p.trace = p.taken
 	p.pos = len(p.trace)
 	return 0
+}
+
+// recordChoice stores an engine-side choice in the decision trace (no alternatives are
+// spawned); when a prefix is replayed the recorded value is returned instead.
+func (m *Machine) recordChoice(v uint64) uint64 {
+	p := m.path
+	if p.pos < len(p.trace) {
+		d := p.trace[p.pos]
+		p.pos++
+		p.taken = append(p.taken, d)
+		return d
+	}
+	p.taken = append(p.taken, v)
+	p.trace = p.taken
+	p.pos = len(p.trace)
+	return v
 }
 
 func (m *Machine) assume(c BoolV) {
